@@ -21,7 +21,9 @@ import tempfile
 import time
 
 VERIF = os.path.dirname(os.path.dirname(os.path.abspath(__file__)))
-REPO = "/repo"
+# The registered checks always decide /repo's working tree. VERIF_REPO is a developer switch used only to try a
+# seeded change on a scratch worktree while /repo itself is busy (bin/trymutant2); it is never set by MANIFEST commands.
+REPO = os.environ.get("VERIF_REPO", "/repo")
 SPEC = os.path.join(VERIF, "spec")
 HARNESS = os.path.join(VERIF, "harness")
 SCRATCH_ROOT = os.path.join(VERIF, ".scratch")
@@ -153,11 +155,31 @@ def tlc_exhaustive(scratch, runs, tier):
 # --------------------------------------------------------------------------
 def build_drivers(scratch, pkg="./drivers", overlay=None, tags="verif", name="drivers.test", cwd=None):
     cwd = cwd or HARNESS
+    if cwd == "/repo":
+        cwd = REPO
+    modfile = None
     if cwd == HARNESS:
-        shutil.copy(os.path.join(REPO, "go.sum"), os.path.join(HARNESS, "go.sum"))
+        if REPO == "/repo":
+            shutil.copy(os.path.join(REPO, "go.sum"), os.path.join(HARNESS, "go.sum"))
+        else:
+            # scratch worktree: an alternative module file with the replace directive pointing at it
+            modfile = scratch.path("go.alt.mod")
+            with open(os.path.join(HARNESS, "go.mod")) as f:
+                gm = f.read().replace("=> /repo", "=> " + REPO)
+            with open(modfile, "w") as f:
+                f.write(gm)
+            shutil.copy(os.path.join(REPO, "go.sum"), scratch.path("go.alt.sum"))
     out = scratch.path(name)
     cmd = ["go", "test", "-c", "-vet=off", "-tags", tags, "-o", out]
+    if modfile:
+        cmd += ["-modfile", modfile]
     if overlay:
+        if REPO != "/repo":
+            with open(overlay) as f:
+                ov = f.read().replace('"/repo/', '"' + REPO + '/')
+            overlay = overlay + ".alt.json"
+            with open(overlay, "w") as f:
+                f.write(ov)
         cmd += ["-overlay", overlay]
     cmd.append(pkg)
     rc, o, dt = run(cmd, cwd=cwd, env=goenv(), timeout=1500)
